@@ -6,11 +6,16 @@ SRC=/verif/.build/lead-src
 mkdir -p $SRC
 rsync -a --delete --exclude target /verif/harness/ $SRC/
 cd /verif
+# checks whose agents have finished are taken from the working tree (list in tools/done_checks)
+DONE=" $(cat /verif/tools/done_checks 2>/dev/null | tr '\n' ' ') "
 for n in 04 05 06 07 08 09 10 11 12 13 14 15 16 17 18 19 20; do
-  git show HEAD:harness/src/checks/c$n.rs > $SRC/src/checks/c$n.rs
+  case "$DONE" in
+    *" $n "*) ;;
+    *) git show 5b568fb:harness/src/checks/c$n.rs > $SRC/src/checks/c$n.rs
+       # drop helper files of unfinished checks
+       find $SRC/src/checks -name "c${n}_*.rs" -delete 2>/dev/null || true
+       rm -rf $SRC/src/checks/c$n 2>/dev/null || true ;;
+  esac
 done
-# drop helper files agents created next to their checks
-find $SRC/src/checks -name 'c*_*.rs' -delete 2>/dev/null || true
-find $SRC/src/checks -mindepth 1 -type d -exec rm -rf {} + 2>/dev/null || true
 cd $SRC && CARGO_NET_OFFLINE=true CARGO_TARGET_DIR=/verif/.build/lead RUSTFLAGS="--cfg kanata_verif" cargo build --release --offline 2>&1 | grep -E "^error" -A12 | head -30
 echo /verif/.build/lead/release/kvmon
